@@ -2,7 +2,6 @@ package value
 
 import (
 	"context"
-	"encoding/json"
 	"fmt"
 	"math"
 	"strconv"
@@ -112,8 +111,8 @@ func (self ValueString) Fields() (map[string]*Value, *Interrupt) {
 			return NewValueString(sub), nil
 		}),
 		"parse_json": NewValueBuiltinFunction(func(executor Executor, cancelCtx *context.Context, span errors.Span, args ...Value) (*Value, *Interrupt) {
-			var raw interface{}
-			if err := json.Unmarshal([]byte(self.Inner), &raw); err != nil {
+			raw, err := decodeJson(self.Inner)
+			if err != nil {
 				// a catchable exception, like on the VM
 				return nil, NewThrowInterrupt(span, fmt.Sprintf("JSON parse error: %s", err.Error()))
 			}
